@@ -23,6 +23,7 @@ os.close(fd)
 env = dict(os.environ)
 env.pop('PYCDLIB_VERIF', None)
 env['TZ'] = env.get('BASE_TZ', 'UTC')
+env['PYTHONPATH'] = repo
 p = subprocess.run(['/venv/bin/python', '-m', 'pytest', '-q', '-p', 'no:cacheprovider', '--timeout=900',
                     '--continue-on-collection-errors', '-x' if False else '-q', '--junitxml=' + xml],
                    cwd=repo, env=env, stdout=subprocess.PIPE, stderr=subprocess.STDOUT)
